@@ -52,5 +52,70 @@ fn main() {
             }
         }
     }
+    // candidate lists: hidden spellings never shadow visible ones; the level reached follows hidden aliases
+    let cli = || {
+        Command::new("prog")
+            .disable_help_subcommand(true)
+            .subcommand(Command::new("build").alias("b").arg(Arg::new("release").long("release").action(ArgAction::SetTrue)))
+            .subcommand(Command::new("install").alias("i").visible_alias("inst"))
+            .subcommand(Command::new("remove").alias("rm"))
+            .subcommand(Command::new("bench"))
+            .arg(Arg::new("verbose").long("verbose").alias("vv").action(ArgAction::SetTrue))
+    };
+    let comp = |words: &[&str]| -> Result<Vec<String>, String> {
+        let args: Vec<OsString> = std::iter::once("prog").chain(words.iter().copied()).map(OsString::from).collect();
+        let idx = args.len() - 1;
+        std::panic::catch_unwind(move || {
+            let mut cmd = cli();
+            let mut v: Vec<String> = clap_complete::engine::complete(&mut cmd, args, idx, None)
+                .map(|c| c.into_iter().map(|c| c.get_value().to_string_lossy().into_owned()).collect())
+                .unwrap_or_default();
+            v.sort();
+            v
+        })
+        .map_err(|_| "panic".to_string())
+    };
+    let subs = |v: Vec<String>| -> Vec<String> { v.into_iter().filter(|s| !s.starts_with('-')).collect() };
+    // (name, visible aliases, hidden aliases) of the root level, mirrored from `cli` above
+    let table: [(&str, &[&str], &[&str]); 4] = [("build", &[], &["b"]), ("install", &["inst"], &["i"]), ("remove", &[], &["rm"]), ("bench", &[], &[])];
+    for w in ["", "b", "i", "in", "inst", "insta", "r", "rm", "be", "x"] {
+        n += 1;
+        let got = match comp(&[w]) {
+            Ok(v) => subs(v),
+            Err(_) => { println!("C18-REPLAY MISMATCH case=subcommand candidates for {w:?}: panic"); continue; }
+        };
+        let visible: Vec<&str> = table.iter().filter(|(name, vis, _)| name.starts_with(w) || vis.iter().any(|a| a.starts_with(w))).map(|t| t.0).collect();
+        let spell_of = |cand: &str, hidden_ok: bool| table.iter().find(|(name, vis, hid)| *name == cand || vis.contains(&cand) || (hidden_ok && hid.contains(&cand))).map(|t| t.0);
+        if !visible.is_empty() {
+            // every candidate is a VISIBLE spelling extending w; every visible subcommand is represented
+            let bad: Vec<&String> = got.iter().filter(|c| !c.starts_with(w) || spell_of(c.as_str(), false).is_none()).collect();
+            let missing: Vec<&&str> = visible.iter().filter(|name| !got.iter().any(|c| spell_of(c.as_str(), false) == Some(**name))).collect();
+            if !bad.is_empty() || !missing.is_empty() {
+                println!("C18-REPLAY MISMATCH case=subcommand candidates for {w:?}: got {got:?}; not a visible spelling: {bad:?}; visible subcommands not represented: {missing:?}");
+            }
+        } else {
+            let hidden: Vec<&str> = table.iter().flat_map(|(_, _, hid)| hid.iter().copied()).filter(|a| a.starts_with(w)).collect();
+            let mut g2 = got.clone();
+            g2.sort();
+            let mut h2: Vec<String> = hidden.iter().map(|s| s.to_string()).collect();
+            h2.sort();
+            if g2 != h2 {
+                println!("C18-REPLAY MISMATCH case=subcommand candidates for {w:?} (nothing visible matches): got {got:?}, expected the hidden aliases {h2:?}");
+            }
+        }
+    }
+    for (words, want) in [
+        (vec!["--v"], vec!["--verbose"]),
+        (vec!["--vv"], vec!["--vv"]),
+        (vec!["build", "--r"], vec!["--release"]),
+        (vec!["b", "--r"], vec!["--release"]),
+        (vec!["inst", "--r"], vec![]),
+    ] {
+        n += 1;
+        match comp(&words) {
+            Ok(v) if v == want => {}
+            other => println!("C18-REPLAY MISMATCH case=option candidates for {words:?}: got {other:?}, expected {want:?}"),
+        }
+    }
     println!("C18-REPLAY DONE {n} cases");
 }
